@@ -20,8 +20,9 @@ def sh(cmd, cwd=None, env=None, timeout=3600):
     return p.returncode, p.stdout
 
 
-def build_tests(tree, bdir):
-    rc, out = sh("cmake -G Ninja -S . -B %s -DCMAKE_BUILD_TYPE=RelWithDebInfo -DFETCHCONTENT_TRY_FIND_PACKAGE_MODE=ALWAYS >/dev/null && cmake --build %s 2>&1 | tail -3" % (bdir, bdir), cwd=tree)
+def build_tests(tree, bdir, btype="RelWithDebInfo", cxxflags=""):
+    rc, out = sh("cmake -G Ninja -S . -B %s -DCMAKE_BUILD_TYPE=%s %s -DFETCHCONTENT_TRY_FIND_PACKAGE_MODE=ALWAYS >/dev/null && cmake --build %s 2>&1 | tail -3"
+                 % (bdir, btype, ("-DCMAKE_CXX_FLAGS=" + cxxflags) if cxxflags else "", bdir), cwd=tree)
     return rc, out
 
 
@@ -58,24 +59,37 @@ def main():
     result = {"name": a.name, "patch": a.patch}
     try:
         if a.confirm:
-            # unchanged tree first
-            rc, out = build_tests(tree, "b0")
-            r0, o0 = demo(tree, "b0", a.confirm, "demo0")
-            result["demo_without_patch"] = r0
-            rc, out = sh(["git", "apply", os.path.abspath(a.patch)], cwd=tree)
-            if rc:
-                print("patch does not apply:", out)
-                return 2
-            rc, out = build_tests(tree, "b1")
-            result["builds_with_patch"] = rc == 0
-            rc, out = sh("./b1/test/foonathan_memory_test | tail -3", cwd=tree)
-            result["tests_with_patch"] = "SUCCESS" in out
-            result["tests_tail"] = out.strip().splitlines()[-1] if out.strip() else ""
-            r1, o1 = demo(tree, "b1", a.confirm, "demo1")
-            result["demo_with_patch"] = r1
-            result["demo_output_with_patch"] = (o1 or "")[-300:]
-            shutil.rmtree(os.path.join(tree, "b0"), ignore_errors=True)
-            shutil.rmtree(os.path.join(tree, "b1"), ignore_errors=True)
+            # each build flavour: demo on the unchanged tree must pass, with the patch the tests must pass and the demo must fail
+            flavours = [("RelWithDebInfo", "", ""), ("Debug", "", ""), ("RelWithDebInfo", "-fsanitize=thread", "-fsanitize=thread"),
+                        ("RelWithDebInfo", "-fsanitize=address,undefined", "-fsanitize=address,undefined")]
+            result["confirm"] = []
+            confirmed = False
+            for i, (bt, cxx, dflags) in enumerate(flavours):
+                sh(["git", "checkout", "--", "."], cwd=tree)
+                rc, out = build_tests(tree, "b0", bt, cxx)
+                r0, o0 = demo(tree, "b0", a.confirm, "demo0", dflags)
+                rc, out = sh(["git", "apply", os.path.abspath(a.patch)], cwd=tree)
+                if rc:
+                    print("patch does not apply:", out)
+                    return 2
+                rc, out = build_tests(tree, "b1", bt, cxx)
+                builds = rc == 0
+                rc, out = sh("./b1/test/foonathan_memory_test | tail -3", cwd=tree)
+                tests = "SUCCESS" in out
+                r1, o1 = demo(tree, "b1", a.confirm, "demo1", dflags)
+                rec = {"build": bt + (" " + cxx if cxx else ""), "builds_with_patch": builds, "tests_pass_with_patch": tests,
+                       "demo_exit_without_patch": r0, "demo_exit_with_patch": r1, "demo_output_with_patch": (o1 or "")[-200:]}
+                result["confirm"].append(rec)
+                shutil.rmtree(os.path.join(tree, "b0"), ignore_errors=True)
+                shutil.rmtree(os.path.join(tree, "b1"), ignore_errors=True)
+                if builds and tests and r0 == 0 and r1 not in (0, None):
+                    confirmed = True
+                    break
+                if i == 0 and not (builds and tests):
+                    break  # the baseline configuration's own suite must pass with the change
+            result["confirmed"] = confirmed
+            sh(["git", "checkout", "--", "."], cwd=tree)
+            sh(["git", "apply", os.path.abspath(a.patch)], cwd=tree)
         else:
             rc, out = sh(["git", "apply", os.path.abspath(a.patch)], cwd=tree)
             if rc:
